@@ -18,7 +18,7 @@ FNS = ["isEuropeanNumericCharacter", "isNonNegativeCellMLInteger", "isCellMLInte
 KNOWN_STO_SITES = {
     ("utilities.cpp", "stringToDouble"): "under contract (h_stringToDouble, h_convertToDouble, h_canConvertToBasicDouble)",
     ("utilities.cpp", "convertToInt"): "under contract (h_convertToInt)",
-    ("units.cpp", "addUnit"): "guarded by isCellMLInteger(prefix) and try/catch(std::out_of_range) - structural check below",
+    ("units.cpp", "addUnit"): "under contract (h_addUnit_prefix)",
     ("validator.cpp", "validateUnitsUnitsItem"): "guarded by isCellMLInteger(prefix) and try/catch(std::out_of_range) - structural check below",
     ("analyser.cpp", "powerValue"): "NOT under contract: no recogniser dominates the call in its own function (unproved call-site precondition)",
 }
@@ -32,7 +32,10 @@ def main(argv):
     unit = UnitSpec("recognisers", ["utilities.cpp"], [("utilities.cpp", "libcellml::" + f) for f in FNS],
                     string_model="vstr", models=("exact.h", "numconv.h"), spec_header="specs/C16/spec.h",
                     harness_file="specs/C16/harness.c")
-    c.units = [unit]
+    units_unit = UnitSpec("units", ["units.cpp"], [("units.cpp", "libcellml::Units::addUnit(std::string const&, std::string const&, double, double, std::string const&)")],
+                          string_model="vstr", models=("exact.h", "numconv.h"), spec_header="specs/C16/spec.h",
+                          harness_file="specs/C16/harness.c", prelude="#define UNIT_UNITS 1", must_fire=False)
+    c.units = [unit, units_unit]
     D = {"N": n, "VSTR_CAP": cap, "VVEC_CAP": cap}
     uw = cap + 3
     bound = "strings <= %d bytes over all 256 byte values" % n
@@ -64,6 +67,10 @@ def main(argv):
         H("convertPrefixToInt", "convertPrefixToInt", ["isStandardPrefixName", "convertToInt"], unwind=max(uw, 23),
           carries="prefix text: SI name / empty / integer / rejected"),
     ]
+    c.harnesses.append(("units", Harness("h_addUnit_prefix", "B", enforce=None, replace=["isCellMLInteger"], unwind=uw, defines=dict(D, HEAP_N=2, VVEC_CAP=2), backend="sat",
+                                         timeout=900, bound=bound,
+                                         carries="the integer-prefix call site in Units::addUnit: std::stoi only behind the integer recogniser, nothing escapes, "
+                                                 "non-integer prefix text is kept so that it is reported")))
     c.trusted_base = [
         "exact bounded models of std::string/vector/set/map (models/exact.h), differentially tested through the "
         "lowering-conformance run against the real functions on every run",
@@ -117,7 +124,7 @@ def main(argv):
         chk.extra_cov["sto_call_sites"] = [{"file": f, "function": fn, "line": ln, "status": KNOWN_STO_SITES.get((f, fn), "NEW - not under contract")}
                                            for f, fn, ln in sites]
         # structural guard check for the two stoi sites outside utilities.cpp
-        for f, fn in (("units.cpp", "addUnit"), ("validator.cpp", "validateUnitsUnitsItem")):
+        for f, fn in (("validator.cpp", "validateUnitsUnitsItem"),):
             txt = open(os.path.join(SRC, f), errors="replace").read()
             for m in re.finditer(r"std::stoi\s*\(\s*(\w+)\s*\)", txt):
                 pre = txt[max(0, m.start() - 1500):m.start()]
